@@ -1,12 +1,18 @@
 (* Property C15: a truncated VCD loads as a prefix of the complete one.
    Pinned: the parser level (prefix_events, cut_at_token_boundary, parse_loop_run), the store level
    (prefix_history_prefix_report: a history that is a prefix of another is reported as a prefix - time table and
-   every bit-vector signal) and their composition for the single-threaded loader (truncated_vcd_prefix_report).
+   every bit-vector signal) and their composition for the single-threaded loader (truncated_vcd_prefix_report);
+   truncated_at_line_end is the line-boundary clause from the text: a body written one token group per line and cut
+   at the end of a line loads as exactly the meaning of the lines present (time table = accepted time stamps of those
+   lines, every bit-vector variable = its recorded changes there) and as a prefix of the complete load. For the
+   multi-threaded loader the same follows through read_values_mt_equals_st (C03) for bodies in its class.
    NOT proved: cuts inside a token (the at most one extra event of prefix_events can be a damaged value: known finding
    class CutInsideChange), real / string variables, the multi-threaded path; decided by the fault enumeration over every
    cut offset (MANIFEST level_note). *)
 From WV Require Import Model.Base Model.Bits Model.WaveMem Model.VcdBody Spec.TimeSpec Spec.StoreSpec
-  Proofs.StoreProofs Proofs.EncoderProofs Proofs.BodyProofs Proofs.VcdStreamProofs Proofs.PrefixProofs.
+  Proofs.StoreProofs Proofs.EncoderProofs Proofs.BodyProofs Proofs.VcdStreamProofs Proofs.PrefixProofs
+  Proofs.TimeTableProofs Proofs.TokenProofs Proofs.TilingProofs Proofs.MtProofs Proofs.TruncProofs.
+From Coq Require Import List. Import ListNotations.
 Open Scope N_scope.
 
 (* for every body and every cut: the events of the truncated body are a prefix of the events of the
@@ -71,7 +77,32 @@ Check truncated_vcd_prefix_report :
     load_signal lz_decompress b2 id (EncBits bits) = Ok s2 /\ observe_signal s2 = Ok l2 /\
     is_prefix l1 l2.
 
+
+Check truncated_at_line_end :
+  forall (parse_f64 : list byte -> option (list byte)) (lz_compress : list byte -> list byte)
+         (lz_decompress : list byte -> nat -> option (list byte)),
+  (forall d n, (length d <= n)%nat -> lz_decompress (lz_compress d) n = Some d) ->
+  forall cap, 1 <= cap -> cap <= 65536 ->
+  forall debug tpes lookup (A B : list line) id bits b1 t1 b2 t2,
+  Forall line_ok (A ++ B) -> (1 <= bits)%nat -> nth_error tpes id = Some (EncBits bits) ->
+  read_values_st parse_f64 lz_compress cap debug tpes lookup (body A) = Ok (b1, t1) ->
+  read_values_st parse_f64 lz_compress cap debug tpes lookup (body A ++ bytes_of B) = Ok (b2, t2) ->
+  N.of_nat (length t2) < 4294967296 ->
+  (forall ops, ops_of lookup true false (evs (A ++ B)) = Some ops ->
+               N.of_nat (count_vcd id ops) * (10 + N.of_nat bits) < 4294967264) ->
+  is_prefix t1 t2 /\
+  exists ops1 R s1 s2 l2,
+    ops_of lookup true false (evs A) = Some ops1 /\ t1 = accepted (times_of ops1) /\
+    Forall2 (decodes bits) R (recorded id ops1 [] false) /\
+    load_signal lz_decompress b1 id (EncBits bits) = Ok s1 /\ observe_signal s1 = outcome_map render_of (dedup R) /\
+    load_signal lz_decompress b2 id (EncBits bits) = Ok s2 /\ observe_signal s2 = Ok l2 /\
+    exists l1, observe_signal s1 = Ok l1 /\ is_prefix l1 l2.
+
+Check body_app : forall A B, body (A ++ B) = body A ++ bytes_of B.
+
 Print Assumptions prefix_events.
+Print Assumptions truncated_at_line_end.
+Print Assumptions body_app.
 Print Assumptions prefix_history_prefix_report.
 Print Assumptions truncated_vcd_prefix_report.
 Print Assumptions cut_at_token_boundary.
